@@ -36,6 +36,10 @@ DECIDES = ('L1: every self.method(...) call resolves in the inheritance cone; L2
            'with and without trailing comma, and the function raises nothing but the scanner\'s error - decided for ALL sequences: the exploration closes over the abstract states of the function\'s locals; '
            'C11-CUT (rules/sC11.py, shared with C11): split_string_literal puts the `""` separator between escape tokens only, so no chunk of a long C literal ends in an unfinished escape '
            '(an escaped closing quote = C file the C compiler rejects). '
+           'C43-LEXSTATE (rules/s9C43.py): product automaton lexicon state x f-/t-string prescan counter {0, 1, >=2}; the action methods bound in each state (table parsed from Lexicon.make_lexicon) are executed '
+           'symbolically from the initial state; no action leaves the scanner in the default token state while a replacement field is being pre-scanned (counter >= 1); '
+           'C43-JOINGUARD: a sep.join(<local list>) whose path condition depends on a None test of one element / a slice / the element variable / a parallel list / any() and not on an exclusion '
+           'of None from the whole list is reported (truth-table expansion of the path condition over its atoms). '
            'Written but NOT armed (pending finding FINDING_1, it reports PyrexScanner.close_bracket_action on the unmodified tree): C43-NONEORD - the result of a function that returns None '
            'on one path and a value on another is an operand of < <= > >= / arithmetic only behind a test that excludes None.')
 NOT_DECIDED = ('"accepts every valid Python program" and crashes that depend on run-time values of the compiled program or on the C compiler; '
@@ -45,6 +49,8 @@ NOT_DECIDED = ('"accepts every valid Python program" and crashes that depend on 
                'C43-ITEMSEQ: what the expression sub-parsers accept (they are modelled as "consume one expression"); item orders that CPython rejects and Cython accepts (info only); '
                'parameter lists of def / lambda (p_c_arg_list parses C declarators, outside the model); the congruence of the state abstraction is checked on a second representative prefix per state, not proved; '
                'C11-CUT: transfer of the decision table from limits 6 / 7 to the production limit 2000 (see rules/sC11.py); '
+               'C43-JOINGUARD: a join with no None test at all in its path condition (mutant joinguard_test_dropped: needs the kind -> Optional-slot correlation of p_string_literal); '
+               'C43-LEXSTATE: which FT string state is re-entered (all generated states are one abstract state), bracket-level conditions (explored both ways); '
                'string / float literal text (C43-LEXCASE follows INT token text only); whether the bytes of a scanner error are rewound by tentatively_scan.')
 ASSUMPTIONS = [
     'C43-EXCSHAPE: the elements of a held-error list are instances of the classes Errors constructs and hands to report_error() (CompileError), or of subclasses, whose own __init__ is checked too',
@@ -75,6 +81,9 @@ MUTATIONS = [
     # --- round 7: /verif/mutants/C43/cut_* and seq_* (21 mutants: 13 breaking, all reported; 8 behaviour preserving, all silent)
     ('Cython/Compiler/StringEncoding.py', 'seed C43i: split_string_literal walks back over ONE preceding backslash only', 'C11-CUT: caught'),
     ('Cython/Compiler/Parsing.py', 'seed C43j: p_call_parse_args tests keyword_args instead of the ** flag before *iterable', 'C43-ITEMSEQ p_call_parse_args:star-after-kw:rejected: caught'),
+    # --- round 9: /verif/mutants/C43/lexstate_* and joinguard_* (14 mutants: 10 breaking, 9 reported; 4 behaviour preserving, all silent)
+    ('Cython/Compiler/Scanning.py', 'seed C43m: end_ft_string_action always returns to the default state', 'C43-LEXSTATE: caught'),
+    ('Cython/Compiler/Parsing.py', 'seed C43n: p_cat_string_literal tests bstrings[0] only before b\'\'.join(bstrings)', 'C43-JOINGUARD: caught'),
     # behaviour preserving (all silent)
     ('Cython/Compiler/Scanning.py', 'enter_async: test on the old value before the increment (`if self.async_enabled == 0: ...; self.async_enabled += 1`), keys installed with self.keywords.update({...})', None),
     ('Cython/Compiler/Scanning.py', 'exit_async: `if self.async_enabled == 0:` / `< 1`, keys removed with self.keywords.pop()', None),
@@ -91,7 +100,7 @@ EXEMPT = {
 
 
 def run(ctx):
-    from ..rules import scopeapi, crash2, sC43, dD6, sC11, s7C43, dD8
+    from ..rules import scopeapi, crash2, sC43, dD6, sC11, s7C43, dD8, s9C43
     return [crash.rule_L1(ctx), crash.rule_L2(ctx), crash.rule_L3(ctx), crash.rule_L4(ctx), crash.rule_L5(ctx), crash.rule_L7(ctx),
             iface.rule_I1(ctx), iface.rule_I2(ctx), tree.rule_V1_visit(ctx), tree.rule_V2(ctx), handlers.rule_arg_guards(ctx),
             gen2.rule_G2(ctx), gen.rule_G4(ctx), C09.rule_leading_zero(ctx), scopeapi.rule_L8(ctx), crash2.rule_L9(ctx), crash2.rule_L10(ctx),
@@ -100,6 +109,7 @@ def run(ctx):
             sC43.rule_NONEORD(ctx),     # found PyrexScanner.close_bracket_action comparing a None nesting level (repaired: 921d6e3cf)
             sC11.rule_cut(ctx),         # the cut decision of split_string_literal (rule of C11): a `""` separator inside an escape leaves an unterminated C literal (seed C43i)
             s7C43.rule_ITEMSEQ(ctx),
+            s9C43.rule_LEXSTATE(ctx), s9C43.rule_JOINGUARD(ctx),     # round 9 (rules/s9C43.py): seeds C43m, C43n
             dD8.rule_BITWIDTH(ctx), dD8.rule_CFLOAT(ctx), dD8.rule_INTLIMIT(ctx), dD8.rule_DOCTYPE(ctx),     # round 7 (rules/dD8.py), armed after the repairs 413d857dd, 0aef96ca8, 83d376d1d, ebf661440
             dD8.rule_NESTDEPTH(ctx),    # known finding K20 (parser recursion depth)
             dD6.rule_DEFERRED(ctx),     # found PostParse.visit_ErrorNode returning None / match handlers validating before visiting (repaired: efc8b7b65)
